@@ -67,6 +67,7 @@ class PathEval:
             if v[0] == "none": return "None"
             if v[0] == "ord": return {-1: "Less", 0: "Equal", 1: "Greater"}[v[1]]
             if v[0] == "cf": return v[1]
+            if v[0] == "enumv": return v[1]
         raise NotEval("variant of %r" % (v,))
 
     def comp_sign(self, x, y):
@@ -99,6 +100,7 @@ class PathEval:
                 v = self.ev(inner[1])
                 if v[0] == "some" and inner[2] == "Some": return v[1]
                 if v[0] == "cf" and inner[2] == v[1]: return v[2]
+                if v[0] == "enumv" and inner[2] == v[1]: return ("payload", v[2], v[1], t[2])
                 raise NotEval("payload %s of %r" % (inner[2], v))
             v = self.ev(inner)
             if v[0] == "rec":
@@ -106,6 +108,8 @@ class PathEval:
                 if str(t[2]).isdigit() and int(t[2]) < len(v[1]): return v[1][int(t[2])]
             if v[0] == "tuple" and str(t[2]).isdigit(): return v[1][int(t[2])]
             raise NotEval("field %s of %r" % (t[2], v))
+        if k == "rawptr" and len(t) > 1:
+            return self.ev(t[1])
         if k == "const":
             if str(t[2]) in ("0", "false"): return False
             if str(t[2]) in ("1", "true"): return True
@@ -118,6 +122,8 @@ class PathEval:
                 s = (x[1] > y[1]) - (x[1] < y[1])
             elif isinstance(x, bool) and isinstance(y, bool):
                 s = (x > y) - (x < y)
+            elif isinstance(x, tuple) and isinstance(y, tuple) and x[0] == "disc" and y[0] == "disc":
+                s = 0 if x == y else 1
             else:
                 s = self.comp_sign(x, y)
             return {"Lt": s < 0, "Le": s <= 0, "Gt": s > 0, "Ge": s >= 0, "Eq": s == 0, "Ne": s != 0}[t[1]]
@@ -158,6 +164,12 @@ class PathEval:
                 return ("tuple", tuple(self.ev(o) for o in t[4]))
         if k == "call":
             nm, a = t[1].name, t[2]
+            if nm in ("eq", "ne") and len(a) == 2 and (t[1].key() or "").startswith("std::ptr::"):
+                if nm == "ne":
+                    raise NotEval("ptr::ne")
+                return ("ptreq", self.ev(a[0]), self.ev(a[1]))
+            if nm == "discriminant" and len(a) == 1:
+                return ("disc", self.variant(self.ev(a[0])))
             if nm == "partial_cmp" and len(a) == 2:
                 return ("some", ("ord", self.comp_sign(self.ev(a[0]), self.ev(a[1]))))
             if nm == "cmp" and len(a) == 2:
